@@ -986,6 +986,9 @@ func (w *_structAssemblerRepr) AssembleEntry(k string) (datamodel.NodeAssembler,
 		return nil, err
 	}
 	am := w.AssembleValue()
+	if rejected, ok := am.(_errorAssembler); ok {
+		return nil, rejected.err
+	}
 	return am, nil
 }
 
@@ -1031,6 +1034,9 @@ func (w *_mapAssemblerRepr) AssembleEntry(k string) (datamodel.NodeAssembler, er
 		return nil, err
 	}
 	am := w.AssembleValue()
+	if rejected, ok := am.(_errorAssembler); ok {
+		return nil, rejected.err
+	}
 	return am, nil
 }
 
@@ -1058,7 +1064,6 @@ func (w *_listStructAssemblerRepr) AssembleValue() datamodel.NodeAssembler {
 			}}
 		}
 		field := fields[w.nextIndex]
-		w.doneFields[w.nextIndex] = true
 		w.nextIndex++
 
 		entryAsm, err := (*_structAssembler)(w).AssembleEntry(field.Name())
@@ -1239,6 +1244,9 @@ func (w *_unionAssemblerRepr) AssembleEntry(k string) (datamodel.NodeAssembler, 
 		return nil, err
 	}
 	am := w.AssembleValue()
+	if rejected, ok := am.(_errorAssembler); ok {
+		return nil, rejected.err
+	}
 	return am, nil
 }
 
